@@ -40,7 +40,8 @@ Proof.
 Qed.
 
 Lemma sse_process_msg : forall sm ls,
-  sse_process ((sse_data_prefix ++ sm) :: [] :: ls) [] [] = mkEv [] sm :: sse_process ls [] [].
+  sse_process ((sse_data_prefix ++ sm) :: [] :: ls) [] [] [] None =
+  mkEv [] sm [] None :: sse_process ls [] [] [] None.
 Proof.
   intros sm ls. cbn [sse_process sse_data_prefix app].
   assert (E : split_colon (100 :: 97 :: 116 :: 97 :: 58 :: 32 :: sm) = ([100; 97; 116; 97], Some (32 :: sm)))
@@ -56,8 +57,8 @@ Qed.
 
 Lemma sse_chunk : forall sms,
   Forall (fun sm => crlf_free sm = true) sms ->
-  sse_process (sse_lines (flat_map (fun sm => sse_data_prefix ++ sm ++ [10; 10]) sms) [] false) [] []
-  = map (mkEv []) sms.
+  sse_process (sse_lines (flat_map (fun sm => sse_data_prefix ++ sm ++ [10; 10]) sms) [] false) [] [] [] None
+  = map (fun sm => mkEv [] sm [] None) sms.
 Proof.
   induction 1 as [|sm sms Hsm _ IH]; [reflexivity|].
   cbn [flat_map map]. rewrite sse_lines_msg by exact Hsm.
@@ -78,12 +79,19 @@ Lemma flat_map_sse_msg : forall msgs,
   flat_map (fun sm => sse_data_prefix ++ sm ++ [10; 10]) (map strip_cr msgs).
 Proof. induction msgs as [|m msgs IH]; [reflexivity|]. cbn [flat_map map]. now rewrite IH. Qed.
 
+Lemma strip_bom_chunk : forall fixed msgs,
+  strip_bom (flat_map (sse_msg fixed) msgs) = flat_map (sse_msg fixed) msgs.
+Proof. intros fixed [|m msgs]; reflexivity. Qed.
+
+Lemma strip_bom_frame : forall fixed msgs, strip_bom (sse_frame fixed msgs) = sse_frame fixed msgs.
+Proof. reflexivity. Qed.
+
 (* the part of the body written for a batch of messages *)
 Theorem sse_chunk_roundtrip : forall msgs,
   Forall (fun m => lf_free m = true) msgs ->
-  sse_parse (flat_map (sse_msg true) msgs) = map (fun m => mkEv [] (strip_cr m)) msgs.
+  sse_parse (flat_map (sse_msg true) msgs) = map (fun m => mkEv [] (strip_cr m) [] None) msgs.
 Proof.
-  intros msgs H. unfold sse_parse. rewrite flat_map_sse_msg, sse_chunk.
+  intros msgs H. unfold sse_parse. rewrite strip_bom_chunk, flat_map_sse_msg, sse_chunk.
   - now rewrite map_map.
   - apply Forall_forall. intros sm Hin. apply in_map_iff in Hin. destruct Hin as (m & <- & Hm).
     apply strip_cr_crlf_free. eapply Forall_forall in H; eauto.
@@ -92,11 +100,12 @@ Qed.
 (* the whole response body, with the "\r\n" the handler writes first *)
 Theorem sse_roundtrip : forall msgs,
   Forall (fun m => lf_free m = true) msgs ->
-  sse_parse (sse_frame true msgs) = map (fun m => mkEv [] (strip_cr m)) msgs.
+  sse_parse (sse_frame true msgs) = map (fun m => mkEv [] (strip_cr m) [] None) msgs.
 Proof.
-  intros msgs H. unfold sse_parse, sse_frame.
+  intros msgs H. pose proof (sse_chunk_roundtrip msgs H) as C.
+  unfold sse_parse in *. rewrite strip_bom_chunk in C. rewrite strip_bom_frame. unfold sse_frame.
   cbn [app sse_lines N.eqb Pos.eqb rev sse_process].
-  exact (sse_chunk_roundtrip msgs H).
+  exact C.
 Qed.
 
 (* content: removing raw CRs from a JSON text changes only insignificant whitespace *)
@@ -245,4 +254,53 @@ Theorem pb_roundtrip : forall msgs,
   pb_parse (S (length (pb_frame msgs))) (pb_frame msgs) = Some msgs.
 Proof.
   intros msgs H. apply pb_parse_frame; [exact H|]. pose proof (pb_frame_length msgs). lia.
+Qed.
+
+(* ---------- batches: several messages per write ---------- *)
+
+Lemma flat_map_batches : forall (f : bytes -> bytes) (bs : list (list bytes)),
+  flat_map (fun b => flat_map f b) bs = flat_map f (concat bs).
+Proof.
+  intros f. induction bs as [|b bs IH]; [reflexivity|].
+  cbn [flat_map concat]. now rewrite flat_map_app, IH.
+Qed.
+
+Lemma Forall_concat : forall (P : bytes -> Prop) bs,
+  Forall (Forall P) bs -> Forall P (concat bs).
+Proof.
+  intros P bs H. induction H as [|b bs Hb _ IH]; [constructor|].
+  cbn [concat]. apply Forall_app. now split.
+Qed.
+
+Theorem sse_batches_roundtrip : forall batches,
+  Forall (Forall (fun m => lf_free m = true)) batches ->
+  sse_parse (sse_body true batches) = map (fun m => mkEv [] (strip_cr m) [] None) (concat batches).
+Proof.
+  intros bs H. unfold sse_body. rewrite flat_map_batches.
+  apply (sse_roundtrip (concat bs)). now apply Forall_concat.
+Qed.
+
+Theorem json_batches_roundtrip : forall batches,
+  Forall (Forall (fun m => lf_free m = true)) batches ->
+  ndjson_parse (json_body batches) = concat batches.
+Proof.
+  intros bs H. unfold json_body, json_frame. rewrite flat_map_batches.
+  apply (ndjson_roundtrip (concat bs)). now apply Forall_concat.
+Qed.
+
+Theorem pb_batches_roundtrip : forall batches,
+  Forall (Forall pb_small) batches ->
+  pb_parse (S (length (pb_body batches))) (pb_body batches) = Some (concat batches).
+Proof.
+  intros bs H. unfold pb_body, pb_frame. rewrite flat_map_batches.
+  apply (pb_roundtrip (concat bs)). now apply Forall_concat.
+Qed.
+
+(* the fields the handler never writes keep their initial values *)
+Lemma sse_no_id_retry : forall msgs,
+  Forall (fun m => lf_free m = true) msgs ->
+  Forall (fun e => ev_id e = [] /\ ev_retry e = None /\ ev_type e = []) (sse_parse (sse_frame true msgs)).
+Proof.
+  intros msgs H. rewrite (sse_roundtrip msgs H). apply Forall_forall.
+  intros e He. apply in_map_iff in He. destruct He as (m & <- & _). auto.
 Qed.
